@@ -2,6 +2,7 @@
 Helper lemmas for `Props/C01Capstone2.lean`.
 -/
 import TLX.Props.C01Capstone
+import TLX.Spec.TlsFragmented13
 set_option linter.unusedSimpArgs false
 namespace TLX.Lemmas.Capstone2
 open TLX TLX.Reassembly TLX.Lemmas.Capstone TLX.Lemmas.Pipeline TLX.Spec.TlsFraming
@@ -92,3 +93,99 @@ theorem reasmFinal_other (info : Nat → Pipeline.Info) (server : MainLoop.Endpo
     cases d <;> simp_all [reasmPkt]
 
 end TLX.Lemmas.Capstone2
+
+-- ====================================================================== TLS 1.3: fragmented handshake records
+namespace TLX.Lemmas.Capstone2
+open TLX TLX.Cipher TLX.RecordLayer TLX.Spec.TlsSender TLX.Props.C01 TLX.Lemmas.Pipeline TLX.Spec.TlsConnection
+open TLX.Lemmas.Capstone TLX.Spec.TlsFragmented13
+
+/-- EXACTLY what `handle_decrypted_tls_13_handshake_record` looks at in a record's plaintext `p`: it starts at offset 0
+    of THIS record and hops `index += 4 + int(p[index+1:index+4])` (slices clamp) while `index < len(p)`; `walk` lists
+    the bytes it takes for message types. -/
+def walk (p : Bytes) : Nat → Nat → List UInt8
+  | 0, _ => []
+  | fuel + 1, i =>
+    match p[i]? with
+    | none => []
+    | some t => t :: walk p fuel (i + Bytes.beNat (Bytes.slice p (i + 1) (i + 4)) + 4)
+
+/-- the number of `update_keys` calls a record with plaintext `p` triggers: the 20s among the walked type bytes -/
+def seenFins (p : Bytes) : Nat := ((walk p p.length 0).filter (· = 20)).length
+
+theorem hs13Loop_walk {δ : Type} (O : Session.Ops δ) (srv : Bool) (p : Bytes) :
+    ∀ (fuel i : Nat) (d : δ),
+      Session.hs13Loop O p srv fuel i d = updFold O srv d ((walk p fuel i).map fun t => ((t, []) : HsMsg)) := by
+  intro fuel
+  induction fuel with
+  | zero => intro i d; rfl
+  | succ n ih =>
+    intro i d
+    rw [Session.hs13Loop, walk]
+    cases hp : p[i]? with
+    | none => rfl
+    | some t =>
+      simp only [List.map_cons, updFold]
+      by_cases h : t = 20
+      · simp only [h, if_true]
+        rcases hu : O.updateKeys d srv with ⟨d', ok⟩
+        cases ok
+        · rfl
+        · simp only; rw [ih]
+      · simp only [h, if_false]
+        rw [ih]
+
+theorem finCount_walk (l : List UInt8) :
+    finCount (l.map fun t => ((t, []) : HsMsg)) = (l.filter (· = 20)).length := by
+  induction l with
+  | nil => rfl
+  | cons t r ih =>
+    rw [List.map_cons, finCount_cons, ih]
+    by_cases h : t = 20 <;> simp [List.filter_cons, h]; omega
+
+/-- a protected TLS 1.3 handshake record carrying ANY bytes `b` of the sender's handshake stream, after which the
+    sender has switched `n` times: if the tool's walk over `b` sees exactly `n` type-20 bytes, nothing is exported and
+    the decryptor stays related to the sender -/
+theorem handleRecord_frag13 (H : Crypto.Prims) (P : Prims) (L : SealLaws P) (kl : List Keylog.Key) (cls : CipherClass)
+    (h13 : cls.is13 = true) (macLen : Nat) (ver : Bytes) (hv : ver.length = 2) (x : Snd) (s : Session.St Dec)
+    (hs : Ready cls macLen x s) (srv : Bool) (b : Bytes) (n : Nat) (f : Fresh) (hn : seenFins b = n)
+    (hq : max x.c.seq x.s.seq + (1 + n) ≤ seqLimit) (m : Bool) (car : List Nat) :
+    let o := protect P L cls ver (x.get srv) 22 b f
+    let x' := x.set srv (switchN n o.1)
+    (Session.handleRecord (Pipeline.ops H P kl) m s ⟨o.2, car⟩ srv).traffic = s.traffic ∧
+      Ready cls macLen x' (Session.handleRecord (Pipeline.ops H P kl) m s ⟨o.2, car⟩ srv) ∧
+      max x'.c.seq x'.s.seq ≤ max x.c.seq x.s.seq + (1 + n) := by
+  obtain ⟨hcan, ⟨v, hver, hv13⟩, d, hdec, hR⟩ := hs
+  obtain ⟨h1, h2, h3, h4⟩ := step_exact P L cls macLen ver hv x d hR (.send srv 22 b f)
+    (sendOk_13 cls h13 macLen _ f) (by omega)
+  simp only [step, expected] at h1 h2 h3 h4
+  intro o x'
+  change (x.set srv o.1).c.seq ≤ _ at h3
+  change (x.set srv o.1).s.seq ≤ _ at h4
+  have hd : (Pipeline.ops H P kl).decrypt d ⟨o.2, car⟩ srv
+      = ((recvStep P d (.record srv o.2)).1, some (some (delivered cls 22 b f))) := by
+    rw [ops_decrypt, h1]; rfl
+  have hcnt : finCount ((walk b b.length 0).map fun t => ((t, []) : HsMsg)) = n := by
+    rw [finCount_walk]; exact hn
+  obtain ⟨d', e1, e2, e3⟩ := updFold_rel H P L kl cls h13 macLen ver hv srv
+    ((walk b b.length 0).map fun t => ((t, []) : HsMsg)) (x.set srv o.1)
+    (recvStep P d (.record srv o.2)).1 h2 (by rw [hcnt]; omega)
+  rw [hcnt, after_switches, Lemmas.RecLayer.sget_set, set_set] at e2 e3
+  have heq : Session.handleRecord (Pipeline.ops H P kl) m s ⟨o.2, car⟩ srv
+      = ({ s with dec := some d' } : Session.St Dec) := by
+    unfold Session.handleRecord Session.handleRecordRaw
+    have htyp : (⟨o.2, car⟩ : Session.Rec).typ = some 23 := protect_head_13 P L cls h13 ver _ 22 _ f
+    have hve : v = .tls13 := hv13.mpr h13
+    subst hve
+    rw [htyp]
+    simp only [hcan, hdec, hver]
+    have hrs : Session.rstrip0 (delivered cls 22 b f) = b ++ [22] := by
+      rw [delivered_13 cls h13]; exact rstrip0_inner _ 22 f.pad13 (by decide)
+    have hloop := hs13Loop_walk (Pipeline.ops H P kl) srv b b.length 0 (recvStep P d (.record srv o.2)).1
+    simp [Session.app13, hdec, hd, hrs, Session.Out.st, hcan, hver, Session.tryExcept, hloop, e1]
+  change max x'.c.seq x'.s.seq ≤ _ at e3
+  refine ⟨by rw [heq], ?_, by omega⟩
+  rw [heq]
+  exact ⟨hcan, ⟨v, hver, hv13⟩, _, rfl, e2⟩
+
+end TLX.Lemmas.Capstone2
+
